@@ -2,6 +2,8 @@
    Core-only (no Mathlib / Batteries anywhere below), so it links as a native executable. -/
 import Driver.Util
 import Driver.C15
+import Driver.Lin
+import Driver.Crash
 import Driver.Codec
 import Driver.Engine
 import Driver.SyncSend
@@ -28,6 +30,8 @@ def main (args : List String) : IO UInt32 := do
   let hout ← IO.getStdout
   match args with
   | ["c15"] => loop Drv.C15.step hin hout (); hout.flush; return 0
+  | ["lin"] => loop Drv.Lin.step hin hout (); hout.flush; return 0
+  | ["crash"] => loop Drv.Crash.step hin hout (); hout.flush; return 0
   | ["engine"] => loop Drv.Engine.step hin hout none; hout.flush; return 0
   | ["stream"] => loop Drv.Stream.step hin hout {}; hout.flush; return 0
   | ["sync"] => loop Drv.Sync.step hin hout {}; hout.flush; return 0
